@@ -1,6 +1,22 @@
+from .. import common as C
+
+
+def gen_trans_pacer():
+    # Lean definitions of the Pacer's arithmetic TRANSLATED from the current source of pacer.go
+    # (Hy/Gen/TransPacer.lean); Props/C11.lean proves each equal to the hand-written Hy.Pacer function
+    # for ALL int64 inputs (maxBurstSize_/budget_/sentPacket_/timeUntilSend_/setMaxDatagramSize_translation_eq).
+    # congestion.ByteCount / monotime.Time are int64 in the quic-go fork; MinPacingDelay is a parameter that the
+    # theorems instantiate with the value read from the compiled package (Gen.MinPacingDelayNs).
+    P = "core/internal/congestion/common/pacer.go:Pacer."
+    C.gen_translate("Pacer", [P + "maxBurstSize", P + "Budget", P + "SentPacket", P + "TimeUntilSend", P + "SetMaxDatagramSize"],
+                    types={"congestion.ByteCount": "int64", "monotime.Time": "int64"},
+                    consts={"congestion.MinPacingDelay": "time.Duration"})
+
+
 CFG = {
     "props_module": "Hy.Props.C11",
     "gen_modules": ["core"],
+    "gen_hooks": [gen_trans_pacer],
     "level": "proof",
     "streams": [
         {"mod": "core", "component": "brutal", "driver": "brutal", "reset_re": "^reset",
